@@ -118,10 +118,21 @@ Theorem C02_refund_le_prepayment_any_wei_price :
 Proof. exact refund_le_exact_prepay. Qed.
 Print Assumptions C02_refund_le_prepayment_any_wei_price.
 
+(** Per transaction type, for whatever the code's per-type price functions are ([fee_floor] / [refund_floor], generated
+    from LegacyTx / AccessListTx / DynamicFeeTx): as long as the ante handler's deduction (EffectiveFeeWei) and the msg
+    server's refund (EffectiveGasPriceWeiPerGas) price the gas at the SAME price, the refund never exceeds the
+    prepayment. *)
+Theorem C02_refund_le_prepayment_same_price_both_sides :
+  forall c g used p x,
+    pay_price c p x = refund_price c p x -> 0 <= refund_price c p x -> 0 <= used ->
+    refund_of g used (refund_price c p x) <= prepay true g (pay_price c p x).
+Proof. exact refund_le_prepay_same_price. Qed.
+Print Assumptions C02_refund_le_prepayment_same_price_both_sides.
+
 (** What "admitted" means, as a function of the ante chain: with the gas and nonce decorators installed, a
     successful EVM ante pass is an admission of every message in order. *)
 Theorem C02_evm_ante_admits :
-  forall c ms s s1, e_gas c = true -> fee_exact c = true -> e_seq c = true ->
+  forall c ms s s1, e_gas c = true -> fee_exact c = true -> e_seq c = true -> (forall ty, fee_floor c ty = true) ->
     evm_admit c ms s = Some s1 -> exists ls, direct_eth ms = Some ls /\ admit_seq s ls s1.
 Proof. exact evm_admit_admits. Qed.
 Print Assumptions C02_evm_ante_admits.
@@ -156,6 +167,15 @@ Theorem C02_refuted_if_fee_priced_per_truncated_gas_price :
     bal_of harness_init a < bal_of (fst (deliver cfg_fee_per_gas harness_world harness_init x)) a.
 Proof. exact refuted_if_fee_priced_per_truncated_gas_price. Qed.
 Print Assumptions C02_refuted_if_fee_priced_per_truncated_gas_price.
+
+(** AccessListTx.EffectiveFeeWei without the base-fee floor while the refund price keeps it: a type-1 transaction naming
+    1 wei per gas is accepted, prepays nothing and ends with MORE than it had. *)
+Theorem C02_refuted_if_access_list_fee_not_floored :
+  exists x a, tx_wf harness_world x /\ t_ext x = EvmExt /\
+    snd (deliver cfg_access_fee_not_floored harness_world harness_init x) = true /\
+    bal_of harness_init a < bal_of (fst (deliver cfg_access_fee_not_floored harness_world harness_init x)) a.
+Proof. exact refuted_if_access_list_fee_not_floored. Qed.
+Print Assumptions C02_refuted_if_access_list_fee_not_floored.
 
 (** ApplyEvmMsg no longer writing msg.nonce + 1 after evm.Create: a creation with a value the sender cannot pay on
     top of the gas prepayment is admitted, charged, included — and leaves the sequence where it was; the same signed
